@@ -323,6 +323,18 @@ def fam_product(rec, rng):
     answers.append(('swapped_components', mut.rename_states(P, lambda s: '(%s,%s)' % tuple(reversed(s[1:-1].split(','))))))
     reach = fa.reachable(P)
     answers.append(('reachable_part_only', fa.make([q for q in P[0] if q in reach], P[1], [t for t in P[2] if t[0] in reach], P[3], [q for q in P[4] if q in reach])))
+    # language-preserving but structurally wrong: another initial state that is equivalent to the right one,
+    # a changed move / acceptance of an UNREACHABLE product state
+    cls = fa.moore_classes(P, P[0])
+    eq_init = [q for q in P[0] if q != P[3] and cls[q] == cls[P[3]]]
+    if eq_init:
+        answers.append(('equivalent_initial_state', (P[0], P[1], P[2], rng.choice(eq_init), P[4])))
+    unreach = [q for q in P[0] if q not in reach]
+    if unreach:
+        u = rng.choice(unreach)
+        answers.append(('flip_final_of_unreachable_state', fa.make(P[0], P[1], P[2], P[3], set(P[4]) ^ {u})))
+        T2 = [(p, a, (rng.choice(P[0]) if p == u else q)) for (p, a, q) in P[2]]
+        answers.append(('retarget_moves_of_unreachable_state', fa.make(P[0], P[1], T2, P[3], P[4])))
     Pd = {(p, a): q for (p, a, q) in P[2]}
     for (nm, A) in answers:
         if not (fa.well_formed(A) and fa.is_total_dfa(A)):
@@ -392,6 +404,18 @@ def fam_reverse(rec, rng):
     det = fa.determinize(V)
     answers.append(('determinised_reverse', fa.make(['d%d' % i for i in det[0][0]], det[0][1], [('d%d' % p, a, 'd%d' % q) for (p, a, q) in det[0][2]], 'd0', ['d%d' % i for i in det[0][4]])))
     answers.append(('original_dfa', R))
+    # language-preserving but structurally wrong answers
+    if len(R[4]) == 1:
+        f = R[4][0]
+        answers.append(('final_state_reused_as_initial', fa.make(R[0], R[1], [(q, a, p) for (p, a, q) in R[2]], f, [R[3]])))
+    q_ren = rng.choice(R[0])
+    answers.append(('one_state_renamed', mut.rename_states(V, lambda q: 'zz7' if q == q_ren else q)))
+    answers.append(('extra_final_state', fa.make(list(V[0]) + ['zz8'], V[1], V[2], V[3], list(V[4]) + ['zz8'])))
+    rv = fa.reachable(V)
+    dead = [t for t in V[2] if t[0] not in rv and t[1] is not None]
+    if dead:
+        t = rng.choice(dead)
+        answers.append(('unreachable_reversed_move_dropped', fa.make(V[0], V[1], [x for x in V[2] if x != t], V[3], V[4])))
     fwd = {(p, a): q for (p, a, q) in R[2]}
     for (nm, A) in answers:
         if not fa.well_formed(A):
@@ -431,6 +455,13 @@ def fam_minimal(rec, rng):
     Lref = set(fa.language_upto(R, n))
     t1 = dfa_text(R, rng)
     answers = [('reference', M), ('original_dfa', R), ('renamed_minimal', mut.rename_states(M, lambda q: 'm%d' % sorted(M[0]).index(q)))] + mut.fa_mutants(M, rng, limit=10)
+    dupq = rng.choice(M[0])
+    Td = list(M[2]) + [('dup9', a, q) for (p, a, q) in M[2] if p == dupq]
+    inc = [i for i, t in enumerate(Td) if t[2] == dupq and t[0] != 'dup9']
+    if inc:
+        i = rng.choice(inc)
+        Td[i] = (Td[i][0], Td[i][1], 'dup9')
+    answers.append(('one_state_duplicated', fa.make(list(M[0]) + ['dup9'], M[1], Td, M[3], list(M[4]) + (['dup9'] if dupq in M[4] else []))))
     for (nm, A) in answers:
         if not (fa.well_formed(A) and fa.is_total_dfa(A)):
             continue
@@ -476,6 +507,30 @@ def fam_nfa2dfa(rec, rng):
     answers = [('reference', A0)] + mut.fa_mutants(A0, rng, nfa=True, limit=12)
     # a state whose label is not a set of NFA states, with correct language
     answers.append(('relabelled_state', mut.rename_states(A0, lambda q: q if q != A0[3] else '{zz9}')))
+    # the same subset spelled with two different labels ({p,q} and {q,p}); the second copy is wrong in its
+    # acceptance or in one of its moves, and some moves lead into it
+    multi = [q for q in A0[0] if len(parse_label(q)) >= 2]
+    for _ in range(2):
+        if not multi:
+            break
+        q = rng.choice(multi)
+        els = sorted(parse_label(q))
+        perm = els[1:] + els[:1]
+        q2 = '{' + ','.join(perm) + '}'
+        if q2 in A0[0]:
+            continue
+        T2 = []
+        for (p, a, t) in A0[2]:
+            T2.append((p, a, q2 if (t == q and rng.random() < 0.5) else t))
+        out = [(q2, a, t) for (p, a, t) in A0[2] if p == q]
+        kind = rng.choice(['flip_final', 'retarget', 'correct_copy'])
+        F2 = list(A0[4]) + ([q2] if q in A0[4] else [])
+        if kind == 'flip_final':
+            F2 = [x for x in F2 if x != q2] if q2 in F2 else F2 + [q2]
+        elif kind == 'retarget' and out:
+            i = rng.randrange(len(out))
+            out[i] = (out[i][0], out[i][1], rng.choice(A0[0]))
+        answers.append(('subset_spelled_twice/' + kind, fa.make(list(A0[0]) + [q2], A0[1], T2 + out, A0[3] if rng.random() < 0.7 else (q2 if A0[3] == q else A0[3]), F2)))
     for (nm, A) in answers:
         if not fa.well_formed(A) or not all(re.fullmatch(r'\{[\w,]*\}', q) for q in A[0]) or any(a is None for (_, a, _) in A[2]):
             continue
@@ -566,6 +621,13 @@ def fam_chomsky(rec, rng):
         answers = [('library_answer', bases[phase])] + mut.cfg_mutants(bases[phase], rng, 6)
         if phase - 1 in bases:
             answers.append(('answer_of_previous_phase', bases[phase - 1]))
+        B0 = bases[phase]
+        Av = rng.choice(B0[0])
+        answers.append(('self_unit_rule_added', cf.make(B0[0], B0[1], list(B0[2]) + [(Av, (('V', Av),))], B0[3])))
+        longr = [r for r in B0[2] if len(r[1]) == 2]
+        if longr and B0[1]:
+            (A_, rhs) = rng.choice(longr)
+            answers.append(('rule_padded_to_three_symbols', cf.make(B0[0], B0[1], list(B0[2]) + [(A_, rhs + (rhs[-1],))], B0[3])))
         answers.append(('original_grammar', RG))
         for (nm, A) in answers:
             if {x for (x, _) in A[2]} != set(A[0]) or not A[2] or A[2][0][0] != A[3] or not all(len(v) == 1 for v in A[0]):
